@@ -178,6 +178,39 @@ func (s *stmt) freeResponse(gi *GroupInfo) bool {
 	return false
 }
 
+// sameBranchValues: two Or-branches with the same shape whose public points and bases are equal by
+// value, position by position.
+func sameBranchValues(s *stmt, gi *GroupInfo, a, b []repSpec) bool {
+	if len(a) != len(b) {
+		return false
+	}
+	for i := range a {
+		if len(a[i].terms) != len(b[i].terms) || !s.points[a[i].P].Equal(s.points[b[i].P]) {
+			return false
+		}
+		for j := range a[i].terms {
+			if !s.points[a[i].terms[j][1]].Equal(s.points[b[i].terms[j][1]]) {
+				return false
+			}
+		}
+	}
+	return true
+}
+
+// allBasesNull: every base used in the given branches is the identity.
+func allBasesNull(s *stmt, gi *GroupInfo, brs ...[]repSpec) bool {
+	for _, br := range brs {
+		for _, r := range br {
+			for _, tm := range r.terms {
+				if !s.points[tm[1]].Equal(nullPoint(gi)) {
+					return false
+				}
+			}
+		}
+	}
+	return true
+}
+
 func (s *stmt) prover(suite proof.Suite, secrets map[string]kyber.Scalar, wrapSingle bool) (proof.Prover, proof.Predicate) {
 	pred, _ := buildPred(s.branches, wrapSingle)
 	choice := map[proof.Predicate]int{}
@@ -329,6 +362,13 @@ func c14Hash(t *rapid.T, ev *evProp) {
 		}
 		br := append([][]repSpec(nil), st.branches...)
 		i := rapid.IntRange(0, len(br)-2).Draw(t, "rb")
+		// Exchanging two branches that are the same statement by value (same shape, equal public points
+		// and bases position by position - point NAMES are not part of a proof), or whose bases are all
+		// the identity (every equation reads O = O), gives the statement that was proven: not a mutation.
+		if sameBranchValues(st, gi, br[i], br[i+1]) || allBasesNull(st, gi, br[i], br[i+1]) {
+			applies = false
+			break
+		}
 		br[i], br[i+1] = br[i+1], br[i]
 		p2, _ := buildPred(br, wrap)
 		e, pn := verify(p2, st.points, name, prf)
